@@ -1201,7 +1201,20 @@ func runC01(r *Run, rng *Rng, replay string) {
 	}
 	c01afterSave(r)
 	c01farCell(r)
-	lap("witnesses")
+	c01attrPairs(r)
+	nAttr := 150
+	if thorough {
+		nAttr = 4000
+	}
+	for i := 0; i < nAttr; i++ {
+		c01attrHist(r, r.Seed, i, rng.Range(3, 30))
+	}
+	nCols := 600
+	if thorough {
+		nCols = 20000
+	}
+	c01colsPhase(r, rng, nCols)
+	lap("witnesses+attribute histories+cols")
 	// 1. fixed boundary payloads through every string op
 	for i, s := range c01fixedPayloads() {
 		c01bm(r, s)
@@ -1381,6 +1394,20 @@ func c01replay(r *Run, path string) {
 			c01afterSave(r)
 		case "farcell":
 			c01farCell(r)
+		case "mcols", "hmcols":
+			c01mcols(r, rest)
+		case "attrpair":
+			if len(w) == 7 {
+				n := func(i int) int { v, _ := strconv.Atoi(w[i]); return v }
+				c01attrPair(r, w[1], n(2), n(3), n(4), n(5), n(6))
+			}
+		case "attrhist":
+			if len(w) == 4 {
+				seed, _ := strconv.ParseUint(w[1], 10, 64)
+				idx, _ := strconv.Atoi(w[2])
+				nops, _ := strconv.Atoi(w[3])
+				c01attrHist(r, seed, idx, nops)
+			}
 		case "hist":
 			if len(w) == 5 {
 				seed, _ := strconv.ParseUint(w[1], 10, 64)
